@@ -100,7 +100,11 @@ MUTANTS = {
     ],
     'C12': [
         dict(name='priority-max-prefers-weaker', file='tools/submit.py', old="            if a == Priority.CREW and result != Priority.NOW:\n                result = a", new="            if a == Priority.CREW and result == Priority.TODO:\n                result = a"),
-        dict(name='doing-does-not-cancel-todo', file='pl/state.py', old="        self.wait_on_doing.clear()\n        self.wait_on_todo.set()\n", new="        self.wait_on_doing.clear()\n"),
+        # (removed: 'doing-does-not-cancel-todo' is equivalent for the property - an empty queue implies nothing
+        # executing, so the surviving weaker poller can only fire where the stronger condition holds too, and
+        # _ready_for() refuses a second firing once the pipeline left the running state)
+        dict(name='reset-keeps-priority', file='pl/state.py', old="        self.wait_on_todo.set()\n        self.priority = None\n", new="        self.wait_on_todo.set()\n"),
+        dict(name='crew-waits-on-doing-condition', file='pl/state.py', old="        if wait == 'crew':\n            idle = not dawgie.pl.farm._busy\n", new="        if wait == 'crew':\n            idle = not dawgie.pl.schedule.view_doing()\n"),
         dict(name='done-fires-unconditionally', file='pl/state.py', old="            self.todo_thread = None\n            if self.waiting_on_todo():", new="            self.todo_thread = None\n            if True:"),
     ],
     'C13': [
@@ -124,7 +128,8 @@ MUTANTS = {
     ],
     'C17': [
         dict(name='drops-state-vector-constraint', file='db/shelve/search.py', old="            ) and all(not c or e in c for c, e in zip(constraints[1:], pk[1:])):", new="            ) and all(not c or e in c for c, e in zip(constraints[1:4], pk[1:4])):"),
-        dict(name='scrub-merge-off-by-one', file='db/basis.py', old="                        if r.start > merged[-1].stop:", new="                        if r.start >= merged[-1].stop - 1:"),
+        # (removed: 'scrub-merge-off-by-one' only leaves two overlapping ranges unmerged - the denoted set is the same)
+        dict(name='scrub-merge-drops-head', file='db/basis.py', old="                                start=merged[-1].start, stop=r.stop\n", new="                                start=r.start, stop=r.stop\n"),
         dict(name='keylen-six', file='db/shelve/search.py', old="    def _prime_keys(self, parameters, keylen=5) -> [()]:", new="    def _prime_keys(self, parameters, keylen=4) -> [()]:"),
     ],
     'C18': [
@@ -138,7 +143,8 @@ MUTANTS = {
         dict(name='sanctioned-defaults-true', file='security.py', old="            'Could not determine if endpoint is sanctioned. '\n            'Defaulting to False.'\n        )\n    return False", new="            'Could not determine if endpoint is sanctioned. '\n            'Defaulting to False.'\n        )\n    return True"),
     ],
     'C20': [
-        dict(name='due-window-zero', file=S, old="                if ts <= 300.0:", new="                if ts <= 0.0:"),
+        # (removed: 'due-window-zero' only makes events fire on time instead of up to 5 min early)
+        dict(name='due-window-excludes-late-wakeup', file=S, old="                if ts <= 300.0:", new="                if 0.0 <= ts <= 300.0:"),
         dict(name='dow-offset-off-by-one', file=S, old="    today = now.isoweekday() - 1\n", new="    today = now.isoweekday()\n"),
         dict(name='booted-cleared-by-build', file=S, old="    dawgie.pl.schedule.que = []\n    dawgie.pl.schedule.per = []\n    log.info('build() - computing version differences')", new="    dawgie.pl.schedule.que = []\n    dawgie.pl.schedule.per = []\n    del booted[:]\n    log.info('build() - computing version differences')"),
     ],
